@@ -154,7 +154,11 @@ type kv struct{ k, v int }
 func buildPlan(rng *rand.Rand, c int, hs, tk string, key keyInfo, kinds []kv, ntgt int, reqAddr string, atyp int, ov *override, primed func(p *connPlan)) *connPlan {
 	p := &connPlan{C: c, Hs: hs, Tk: tk, Key: key, Atyp: atyp, ReqAddr: reqAddr}
 	for i := 0; i < ntgt; i++ {
-		p.TPayloads = append(p.TPayloads, randBytes(rng, pickSize(rng)))
+		tsz := pickSize(rng)
+		if ov != nil && ov.TDataSize > 0 {
+			tsz = ov.TDataSize
+		}
+		p.TPayloads = append(p.TPayloads, randBytes(rng, tsz))
 	}
 	host, portS, _ := net.SplitHostPort(reqAddr)
 	port, _ := strconv.Atoi(portS)
